@@ -24,7 +24,7 @@ ASSUMPTIONS = [
 ]
 REQUIRED = {t: ['curve:UnitSquare', 'curve:PiSquare', 'curve:LShape', 'curve:Circle', 'curve:UnitInterval',
                 'curve:random-polygon', 'param:breakpoint', 'param:breakpoint+-ulp', 'param:ends', 'param:vector-multi-piece',
-                'mesh:slabs>=3', 'mesh:closed-one-piece', 'mesh:extra-space-points', 'mesh:refined']
+                'mesh:slabs>=3', 'mesh:closed-one-piece', 'mesh:extra-space-points', 'mesh:grid-graded-to-break-point', 'mesh:refined']
             for t in ('quick', 'thorough')}
 TIMEOUT = {'quick': 600, 'thorough': 3600}
 SHIPPED = ['UnitSquare', 'PiSquare', 'LShape', 'Circle', 'UnitInterval']
@@ -237,6 +237,17 @@ def check_mesh_on_curve(acc, gamma, name, rng, steps, wit, cls):
             p = starts[i] + f * (starts[i + 1] - starts[i])
             if starts[i] < p < starts[i + 1] and p not in sg:
                 sg.append(p)
+        if rng.random() < 0.5 and len(starts) > 2:
+            # a grid graded geometrically towards a break point (from the left or the right), down to 2^-30 of the side:
+            # what an adaptive initial grid resolving a corner looks like
+            j = rng.randrange(1, len(starts) - 1)
+            left = rng.random() < 0.5
+            ln = (starts[j] - starts[j - 1]) if left else (starts[j + 1] - starts[j])
+            for k in range(1, rng.randint(12, 30)):
+                pnt = starts[j] - ln * 2.0**-k if left else starts[j] + ln * 2.0**-k
+                if pnt not in sg and starts[0] < pnt < starts[-1]:
+                    sg.append(pnt)
+            acc.seen('mesh:grid-graded-to-break-point')
         sg.sort()
         acc.seen('mesh:extra-space-points')
     w = dict(wit, time_grid=tg, space_grid=sg if extra else None)
